@@ -40,7 +40,12 @@ def check(pid, tier, replay=None):
     # second slice: routeing filter / private extension at the top of their 16-bit length fields
     big = dict(Rels=S(0, 7), FieldClasses=S("one"), BlobLens=S(0, 1, 2, 65534, 65535) if tier == "quick" else S(0, 1, 2, 32768, 65533, 65534, 65535),   # incl. pairs that sum to 65536
                RecShapes="{<<>>, <<<<7, 1>>>>, <<<<0, 255>>, <<7, 0>>>>}", EmitOneIn=1)
-    slices = [dict(name="main", consts=consts, n_beh=n), dict(name="bigblob", consts=big, n_beh=None)]
+    # third slice: the two header timestamps of a class of their own (all-zero / maximal next to the other fields'
+    # class), for files with and without records
+    stamps = dict(Rels=S(0, 7), FieldClasses=S("one_zlast", "one_zopen", "max_zlast", "max_zopen", "zero_mlast", "zero_mopen"),
+                  BlobLens=S(0, 1), RecShapes="{<<>>, <<<<0, 1>>>>, <<<<7, 0>>, <<0, 3>>>>}", EmitOneIn=1)
+    slices = [dict(name="main", consts=consts, n_beh=n), dict(name="bigblob", consts=big, n_beh=None),
+              dict(name="stamps", consts=stamps, n_beh=None)]
     return pipe.standard_check(
         pid, tier, family="cdrfile", base_module="CdrFileMC", consts=consts, slices=slices,
         invariants=["InvWellFormed", "InvSpecRoundTrip"], n_beh=n,
